@@ -312,12 +312,7 @@ type state struct {
 }
 
 func (s *state) report(c *hsCase, res *hsResult) {
-	if !res.Bubble.OK() {
-		if res.Bubble.Deadlock {
-			s.r.Violation("stall:handshake-never-returns/"+c.Proto, c.ID, "handshake goroutines blocked forever (no deadline honoured)", map[string]any{"case": c, "dump": res.Bubble.Dump})
-		} else {
-			s.r.Violation("panic:"+c.Proto, c.ID, fmt.Sprint(res.Bubble.Panic), map[string]any{"case": c, "stack": res.Bubble.Dump})
-		}
+	if s.r.BubbleFailed(res.Bubble, "handshake/"+c.Proto, c.ID, "handshake goroutines blocked forever (no deadline honoured)", map[string]any{"case": c}) {
 		return
 	}
 	for _, v := range judge(c, res) {
